@@ -33,6 +33,7 @@ def excOf (name : String) : ErrKind :=
   else if name == "AssertionError" then .assertion
   else if name == "ValueError" then .valueError
   else if name == "KeyError" then .keyError
+  else if name == "EdzedInvalidState" then .invalidState
   else .fuel    -- any other class (TypeError, RuntimeError, …): a kind that no path of the model produces
 
 /-- the primitives of `_ctx_event` = the operations of the model -/
@@ -144,6 +145,46 @@ theorem prims_calcOutput (c : Cfg) : (prims c).calcOutput = (fun t => match calc
 theorem prims_setOutput (c : Cfg) : (prims c).setOutput = (fun v => lift (setOut · v)) := rfl
 theorem prims_enableEvent (c : Cfg) : (prims c).enableEvent = (fun b t => { t with enabled := b }) := rfl
 
+/-- `P` is `prims c` except that the two timer methods may be ANY implementation that does what the model's
+    operations do in the states in which `_ctx_event` calls them (inside a transition of a block that has a
+    state and has not failed) -- in particular the translated `_start_timer` / `_stop_timer`
+    (EdzedProofs/FsmTimerTie.lean) -/
+structure Agrees (c : Cfg) (P : FsmPrims TSt TEvent EvData String TEvent Val Dur ErrKind) : Prop where
+  same : P.exc = (prims c).exc ∧
+    P.asGoto = (prims c).asGoto ∧
+    P.isStr = (prims c).isStr ∧
+    P.isEvent = (prims c).isEvent ∧
+    P.isMutableMapping = (prims c).isMutableMapping ∧
+    P.readOnly = (prims c).readOnly ∧
+    P.dataGet = (prims c).dataGet ∧
+    P.isUndef = (prims c).isUndef ∧
+    P.getState = (prims c).getState ∧
+    P.setState = (prims c).setState ∧
+    P.getNext = (prims c).getNext ∧
+    P.setNext = (prims c).setNext ∧
+    P.getActive = (prims c).getActive ∧
+    P.setActive = (prims c).setActive ∧
+    P.isInitialized = (prims c).isInitialized ∧
+    P.chainLimit = (prims c).chainLimit ∧
+    P.transition = (prims c).transition ∧
+    P.timedEvent = (prims c).timedEvent ∧
+    P.setEventData = (prims c).setEventData ∧
+    P.checkState = (prims c).checkState ∧
+    P.runCond = (prims c).runCond ∧
+    P.runCbExit = (prims c).runCbExit ∧
+    P.runCbEnter = (prims c).runCbEnter ∧
+    P.sendEvents = (prims c).sendEvents ∧
+    P.sendNotrans = (prims c).sendNotrans ∧
+    P.calcOutput = (prims c).calcOutput ∧
+    P.setOutput = (prims c).setOutput ∧
+    P.enableEvent = (prims c).enableEvent
+  startTimer : ∀ (item : Dur) (tev : TEvent) (t : TSt), t.active = true → t.st.failed = none →
+    t.st.state.isSome = true → P.startTimer item tev t = (prims c).startTimer item tev t
+  stopTimer : ∀ (t : TSt), t.st.failed = none → P.stopTimer t = (prims c).stopTimer t
+
+theorem agrees_self (c : Cfg) : Agrees c (prims c) :=
+  ⟨⟨rfl, rfl, rfl, rfl, rfl, rfl, rfl, rfl, rfl, rfl, rfl, rfl, rfl, rfl, rfl, rfl, rfl, rfl, rfl, rfl, rfl, rfl, rfl, rfl, rfl, rfl, rfl, rfl⟩, fun _ _ _ _ _ _ => rfl, fun _ _ => rfl⟩
+
 /-- how the model reports the end of `_ctx_event`: the value returned; EdzedUnknownEvent raised by
     `_ctx_event` itself (the state is not marked) is passed on to the caller; any other exception aborts
     the simulation -/
@@ -234,21 +275,21 @@ theorem enterLoop_eq_loopB (c : Cfg) : ∀ (n : Nat) (s : St) (d : EvData) (q : 
 
 /-- the rest of a round, after `self._state = newstate`: entry action, `continue`, timer, `continue`/`break`
     (`re` = the state after the entry action, `q` the state entered, `dur` the 'duration' item) -/
-macro "round_tail" re:term:max q:term:max dur:term:max : tactic =>
+macro "round_tail" hP:ident re:term:max q:term:max dur:term:max : tactic =>
   `(tactic| (
     have hst : ($re).state = some $q := (frame_runEnter _ _ _).state
     generalize $re = s1 at hst ⊢
     cases hf1 : s1.failed with
-    | some k => simp [hf1]
+    | some k => tsimp [($hP).same, hf1]
     | none =>
       cases hn1 : s1.next with
-      | some x => simp [hf1, hn1]
+      | some x => tsimp [($hP).same, hf1, hn1]
       | none =>
         cases ht : (Cfg.tbl _).timedOf $q with
-        | none => simp [hf1, hn1, ht]
+        | none => tsimp [($hP).same, hf1, hn1, ht]
         | some te =>
           obtain ⟨tev, dflt⟩ := te
-          simp [hf1, hn1, ht, hst]
+          tsimp [($hP).same, ($hP).startTimer, hf1, hn1, ht, hst]
           generalize startTimer _ s1 $q tev $dur = s2
           cases hf2 : s2.failed with
           | some k => simp [hf2]
